@@ -43,6 +43,10 @@ def run(tier, seed):
             # whole-population array given as a graph object (used verbatim)
             pass
         pv = g.params_values(small=True)
+        if i % 3 == 1:
+            # default parameters that differ from the values supplied to the observations: the supplied values count
+            other = g.params_values(small=True)
+            p["ops"].append({"op": "setdefaults", "params": {k: str(gen.Fraction(v) + gen.Fraction(1, 2)) for k, v in other.items()}})
         p["obs"] = [{"obs": "struct"}, {"obs": "initpop", "params": pv}, {"obs": "onestep", "params": pv},
                     {"obs": "oracle", "name": "c06", "params": pv, "params2": g.params_values(small=True),
                      "program": checklib.strip_meta(dict(p, obs=[]))}]
@@ -61,7 +65,7 @@ def run(tier, seed):
         if a.get("build_error") is None and any(o["op"] == "strat" for o in p["ops"]):
             nontrivial.add(checklib.signature(p))
     return {"programs": out, "explore": ex, "distinct_nontrivial": len(nontrivial),
-            "rule": "literal, parameterised and function-valued distributions and splits, 1-3 full/partial stratifications, 0-3 "
+            "rule": "(a third of the models carry default parameters that differ from the supplied values) literal, parameterised and function-valued distributions and splits, 1-3 full/partial stratifications, 0-3 "
                     "population-split adjustments after the last stratification (with and without destination filters; pairs of adjustments of one stratification for different strata of the same filter key), 10% with a whole-population array as a graph object; get_initial_population / one_step compared "
                     "with the model; on the implementation the population is recomputed from the definition and compared with "
                     "get_initial_population, one_step().initial_population and row 0 of the outputs of all three solvers; "
